@@ -156,4 +156,8 @@ theorem wsum_pos {F : Type} [Field F] [LinearOrder F] [IsStrictOrderedRing F]
     unfold wlen wend wstart
     omega
 
+/-- the invariant of the memoised `dataSmooth`: a stored value, if present, is the smoothed CURRENT data -/
+def CacheOk (sm : Nat → Option (Smoother K)) (nE : Nat) (s : Cached K) : Prop :=
+  ∀ c, s.cache = some c → c = dataSmooth sm nE s.data
+
 end WB.C17
